@@ -164,6 +164,42 @@ def bad_pdx() -> str:
     return _TINY[key]
 
 
+def bad_dir() -> str:
+    """A directory with one valid ODX file and one whose IS-HIGHLOW-BYTE-ORDER attribute cannot be parsed (an error
+    while READING the file, not while resolving references): every loader entry point must refuse it in strict mode."""
+    pid = os.getpid()
+    key = ("dir", pid)
+    if key not in _TINY or not os.path.isdir(_TINY[key]):  # type: ignore[index]
+        d = os.path.join(emit.scratch_dir(), "bad_dir_c17")
+        os.makedirs(d, exist_ok=True)
+        good = {"type": "BASE-VARIANT", "name": "G", "dops": [{"name": "u8", "dct": U8}],
+                "msgs": [{"kind": "REQUEST", "name": "rq", "params": [P("VALUE", "v", dop="u8")]}], "svcs": []}
+        bad = {"type": "BASE-VARIANT", "name": "B", "dops": [{"name": "u16", "dct": std("A_UINT32", 16, None, True)}],
+               "msgs": [{"kind": "REQUEST", "name": "rq", "params": [P("VALUE", "v", dop="u16")]}], "svcs": []}
+        for fn, xml in emit.db_files({"containers": [{"name": "GC", "layers": [good]}]}).items():
+            if fn.endswith(".odx-d"):
+                open(os.path.join(d, fn), "w").write(xml)
+        for fn, xml in emit.db_files({"containers": [{"name": "BC", "layers": [bad]}]}).items():
+            if fn.endswith(".odx-d"):
+                assert 'IS-HIGHLOW-BYTE-ORDER="true"' in xml
+                open(os.path.join(d, fn), "w").write(xml.replace('IS-HIGHLOW-BYTE-ORDER="true"', 'IS-HIGHLOW-BYTE-ORDER="maybe"'))
+        _TINY[key] = d  # type: ignore[index]
+    return _TINY[key]  # type: ignore[index]
+
+
+def _load_entry(which: str) -> Any:
+    import odxtools
+    d = bad_dir()
+    files = sorted(os.path.join(d, f) for f in os.listdir(d))
+    if which == "directory":
+        db = odxtools.load_directory(d)
+    elif which == "files":
+        db = odxtools.load_files(*files)
+    else:
+        db = odxtools.load_odx_d_file([f for f in files if "BC" in os.path.basename(f)][0])
+    return sorted(l.short_name for l in db.diag_layers)
+
+
 _STORED: Dict[str, Any] = {}
 
 
@@ -198,6 +234,10 @@ MENU: List[Tuple[str, Callable[[], Any]]] = [
     ("encode-unencodable-character-standard-length", lambda: menu_objs()["rq_asc2"].encode(s="\u20aca")),
     ("encode-unencodable-character-leading-length", lambda: menu_objs()["rq_leadasc"].encode(s="\u20aca")),
     ("encode-unencodable-character-min-max-length", lambda: menu_objs()["rq_mmasc"].encode(s="\u20aca")),
+    # a file that cannot be parsed cleanly, through each loader entry point
+    ("load-directory-with-unparsable-file", lambda: _load_entry("directory")),
+    ("load-files-with-unparsable-file", lambda: _load_entry("files")),
+    ("load-odx-d-file-unparsable", lambda: _load_entry("odx-d")),
     ("load-dangling-reference", lambda: _load_summary(dangling_db())),
     ("load-unresolvable-snref", lambda: _load_summary(ambiguous_snref_db())),
     # control: a mode-insensitive valid operation
